@@ -207,6 +207,23 @@ CLAIMED['C02'] = dict(
          'Known finding KF-C02-COPY-ATTRS (sidpy copy_dataset rewrites attributes of an equal pre-existing copy before a later rejection).',
     technique='Coq proof (append-only invariant of the body + clean-up lemma; composition with C06/C08 theorems) + vm_compute correspondence on generated calls')
 
+CLAIMED['C18'] = dict(
+    text='Model of create_empty_dataset with sidpy copy_attributes / copy_linked_objects / copy_dataset as it uses them (H5/EmptyDset.v): argument '
+         'checks, dash replacement, the three states of the name (absent / compatible dataset returned as is / incompatible dataset deleted and '
+         're-created / non-dataset refused), attribute copy (plain always, object references unless skipped or cross-file, region references '
+         'never), cross-file copy of every referenced object under the attribute name with the copy_dataset equality checks, new attributes last, '
+         'check_if_main gate and book-keeping stamps. Theorems: layout and contents (source shape, requested type; existing compatible contents '
+         'kept, otherwise source chunking / compression and empty); every plain source attribute and every new attribute is on the result '
+         '(override order); same-file result is a Main dataset with the source\'s own links; other-file result is a Main dataset whose links are '
+         'members of the destination with the shape, labels, units and contents of the source\'s ancillaries (induction over the reference '
+         'list); non-dataset names refused with the group unchanged; argument errors. Correspondence: histories of 1-3 calls with writes in '
+         'between, compared on exception class, members afterwards, layout, content identity, all attributes and the USIDataset flag.',
+    design='5/C18',
+    note='Trusted: Coq kernel, harness abstraction (attribute values / contents as identities), sidpy helpers as mirrored. Book-keeping stamp '
+         'values are abstracted. A request whose name is the source\'s own name with another dtype deletes the source (documented in DESIGN, outside '
+         'the stated property).',
+    technique='Coq proof (attribute-map lemmas, induction over the source\'s reference list, composition with C06 exactness) + vm_compute correspondence on call histories')
+
 NOT_YET = {}
 
 TITLES = {}
